@@ -14,9 +14,9 @@ runTurn/dispatchOne/handleReceived over an abstract dispatch turn).  Spec: `Spec
 (`monOf`: the four clauses as a monitor over the hook-event history; the very same monitor judges
 the histories recorded from the real actor system).
 
-Result: the full statement is FALSE of the current code (`C06_refuted`; witnesses for clauses 4, 3 and 1):
+Result: the full statement is FALSE of the current code (`C06_refuted`; witnesses for clauses 4 and 3; clause 1 only through a stale Tell):
 Shutdown / tryPassivation take stopLocker and run PostStop on the caller's goroutine without
-looking at the dispatch state, and restartSubtree only waits while the state is Processing (not Scheduled).  What is TRUE for every
+looking at the dispatch state.  (restartSubtree now waits for Idle: fix 4b1d5a5.)  What is TRUE for every
 schedule: the PoisonPill path (`C06_pill_path`), and every execution in which the actor's turn,
 external stop critical sections and restart windows do not overlap in time (`C06_partial`).
 -/
@@ -80,13 +80,34 @@ theorem C06_late_passivation_once :
     (monOf (run (init 32 (progOf [.xPre .kill, .pCheck])) scheduleLatePassivation).log).c2 = true
     ∧ ((run (init 32 (progOf [.xPre .kill, .pCheck])) scheduleLatePassivation).threads 1 = .done) := by decide
 
-/-- clause 1 witness — Restart while the actor is Scheduled with a backlog (no worker has taken it
-    yet): the spin loop only waits while the state is Processing, resetBehavior re-installs Receive,
-    PreStart begins, and a worker now takes the actor and runs Receive during PreStart. -/
-def witnessPreStartOverlap : List Nat := [1, 1, 1, 1, 1, 1, 1, 1, 1, 1, 1, 0, 0]
+/-- `C06_restart_enters_window_only_idle` (fix 4b1d5a5, finding C06-F3 fixed): in EVERY
+    configuration, a restart leaves its spin loop — and only then re-installs the behaviour and runs
+    PreStart — only when the dispatch state is Idle: no worker owns the actor AND it is not sitting
+    on the ready queue with a backlog. -/
+theorem C06_restart_enters_window_only_idle (c : Cfg) (i : Nat) (hpc : c.threads i = .rSpin)
+    (hmove : (tStep c i).threads i ≠ .rSpin) : c.sched = .idle ∧ (tStep c i).win = some i := by
+  by_cases hs : c.sched = .idle
+  · exact ⟨hs, by simp [tStep, hpc, hs, setT]⟩
+  · exact absurd (by simp [tStep, hpc, hs]) hmove
 
-theorem C06_prestart_overlap_restart :
-    (monOf (run (init 32 (progOf [.rCheck])) witnessPreStartOverlap).log).c1 = false := by decide
+/-- regression for C06-F3 on its former witness schedule (Restart of a Scheduled actor with a
+    backlog): the restart now stays in its spin loop, the worker drains the backlog with the
+    behaviour stack empty (no Receive), and only then PreStart begins; clause 1 holds on this run. -/
+def scheduleRestartScheduled : List Nat := [1, 1, 1, 1, 1, 1, 1, 1, 1, 1, 1, 0, 0, 0, 1, 1, 1, 1]
+
+theorem C06_restart_of_scheduled_actor_waits :
+    (run (init 32 (progOf [.rCheck])) (scheduleRestartScheduled.take 11)).threads 0 = .rSpin
+    ∧ (monOf (run (init 32 (progOf [.rCheck])) scheduleRestartScheduled).log).ok = true
+    ∧ (run (init 32 (progOf [.rCheck])) scheduleRestartScheduled).threads 0 = .rFin := by decide
+
+/-- what is left of clause 1 in the model: Tell's flag test and its enqueue are two steps, so a send
+    that passed the test before the stop can still enqueue after restart's PreStart has begun, and
+    the worker then runs Receive inside PreStart.  (Model-level witness only: it cannot be replayed
+    with gates — it needs a Tell paused between its test and its enqueue — and is not a recorded finding.) -/
+def witnessStaleTell : List Nat := [0, 0, 0, 0, 1, 2, 2, 2, 2, 2, 2, 2, 2, 2, 2, 2, 1, 0, 0]
+
+theorem C06_prestart_overlap_stale_tell :
+    (monOf (run (init 32 (progOf [.tCheck false, .rCheck])) witnessStaleTell).log).c1 = false := by decide
 
 theorem C06_refuted : ¬ C06_full := by
   intro h
